@@ -21,8 +21,8 @@ def run(res):
         shutil.rmtree(work, ignore_errors=True)
 
 
-def _harness(res, work, extra):
-    rc, out, rep = common.run_harness("c16", res, work, extra_args=extra, timeout=3300)
+def _harness(res, work, extra, env=None):
+    rc, out, rep = common.run_harness("c16", res, work, extra_args=extra, extra_env=env, timeout=3300)
     if rep is None:
         raise RuntimeError("c16 harness produced no report (rc=%s): %s" % (rc, out[-3000:]))
     return rep, out
@@ -44,12 +44,11 @@ def _run(res, work, extra):
     if not okc:
         res.violation("correspondence", "bindgen-cli no longer builds", clog[-3000:], found_input=False)
         return
-    if not os.path.exists(common.bgmodel_path()):
-        # the model driver did not build: nothing to compare against; still run the oracle search
-        for kind, what in broken:
-            res.violation(kind, what, lean["log"][-3000:], found_input=False)
-        return
-    rep, out = _harness(res, work, extra)
+    no_model = not os.path.exists(common.bgmodel_path())
+    if no_model:
+        # the model driver did not build: run the property's oracle alone as the failing-input search
+        broken.append(("proof-obligation", "bgmodel (Model/CDecl.lean + Driver/C16.lean) does not build against the regenerated table"))
+    rep, out = _harness(res, work, extra, {"C16_NO_MODEL": "1"} if no_model else None)
 
     mvi = rep["model_vs_impl"]
     orf = rep["oracle_failures"]
